@@ -217,3 +217,114 @@ Proof.
     + eexists _, _. split; [reflexivity|]. split; [discriminate|]. cbn [xres_msgs c_ffreads c_pliters c_allocs sumN].
       split; [exact Hone|]. split; [lia|]. split; [lia|]. intros _. rewrite payload_bytes_cons. change (payload_bytes []) with 0. lia.
 Qed.
+
+(* ------------------------------------------------------------------ the whole extractor *)
+Lemma extract_sei_data_total data :
+  exists r c, extract_sei_data_go data = (r, c) /\ extract_sei_data data = r /\ r <> XFuel /\
+    2 * lenN (xres_msgs r) + payload_bytes (xres_msgs r) <= lenN data /\
+    c_ffreads c <= lenN data + 2 /\
+    c_pliters c = sumN (c_allocs c) /\
+    (r <> XErr -> sumN (c_allocs c) = payload_bytes (xres_msgs r)).
+Proof.
+  unfold extract_sei_data_go, extract_sei_data.
+  assert (Hb : bits_left (rinit data) = 8 * lenN data) by (unfold bits_left, rinit; cbn [rdata rpos rn]; lia).
+  destruct (extract_loop_go_total (S (length data)) (rinit data) (rwf_init data) eq_refl)
+    as (r & c & Hrun & Hnf & Hsz & Hff & Hit & Hal).
+  { rewrite Hb. unfold lenN. lia. }
+  exists r, c. split; [exact Hrun|]. split.
+  { rewrite <- (extract_loop_go_fst _ _ (rok_init data)), Hrun. reflexivity. }
+  split; [exact Hnf|]. rewrite Hb in *. split; [lia|]. split; [lia|]. split; [exact Hit|exact Hal].
+Qed.
+
+(* ------------------------------------------------------------------ requested sizes (byte inputs) *)
+(* reachable reader state over byte data: sticky error, or accumulator within its bit count *)
+Definition vinv (s : rstate) : Prop := rerr s = true \/ RGood s.
+
+Lemma read8_lt s : vinv s -> fst (read s 8) < 256 /\ vinv (snd (read s 8)).
+Proof.
+  intros [He|[HI Hn8]].
+  - rewrite (read_after_error s 8 He). cbn [fst snd]. split; [lia|left; exact He].
+  - destruct (N.ltb_spec (N.of_nat (length (rbits s))) 8) as [Hlt|Hge].
+    + destruct (read_fail s 8 HI Hn8 ltac:(lia) Hlt) as (-> & He). split; [lia|left; exact He].
+    + pose proof (read_spec s 8 HI Hn8 ltac:(lia) Hge) as H. destruct (read s 8) as [v s'].
+      destruct H as (-> & _ & HI' & Hn' & _). cbn [fst snd]. split; [|right; split; assumption].
+      eapply N.lt_le_trans; [apply val_of_lt|]. change 256 with (2 ^ 8). apply N.pow_le_mono_r; [lia|].
+      rewrite firstn_length. lia.
+Qed.
+
+Lemma u32_le x : u32 x <= x.
+Proof. unfold u32. apply N.mod_le. lia. Qed.
+
+Lemma read_ff_t_value : forall fuel s acc k0 v s1 k,
+  vinv s -> read_ff_t fuel u32 s acc k0 = Some (v, s1, k) ->
+  v + 255 * k0 <= acc + 255 * k /\ vinv s1.
+Proof.
+  induction fuel as [|f IH]; intros s acc k0 v s1 k Hv; cbn [read_ff_t]; [discriminate|].
+  destruct (read8_lt s Hv) as (Hb & Hv1). destruct (read s 8) as [b s']. cbn [fst snd] in *.
+  pose proof (u32_le (acc + b)) as Hu.
+  destruct (b =? 255).
+  - intros H. destruct (IH _ _ _ _ _ _ Hv1 H) as (H1 & H2). split; [lia|exact H2].
+  - intros H. injection H as <- <- <-. split; [lia|exact Hv1].
+Qed.
+
+Lemma read_ff_t_vinv wrap : forall fuel s acc k0 v s1 k,
+  vinv s -> read_ff_t fuel wrap s acc k0 = Some (v, s1, k) -> vinv s1.
+Proof.
+  induction fuel as [|f IH]; intros s acc k0 v s1 k Hv; cbn [read_ff_t]; [discriminate|].
+  destruct (read8_lt s Hv) as (_ & Hv1). destruct (read s 8) as [b s']. cbn [snd] in *.
+  destruct (b =? 255).
+  - intros H. exact (IH _ _ _ _ _ _ Hv1 H).
+  - intros H. injection H as <- <- <-. exact Hv1.
+Qed.
+
+Lemma read_bytes_vinv : forall k s, vinv s -> vinv (snd (read_bytes k s)).
+Proof.
+  induction k as [|k IH]; intros s Hv; cbn [read_bytes]; [exact Hv|].
+  destruct (read8_lt s Hv) as (_ & Hv1). destruct (read s 8) as [b s1]. cbn [snd] in *.
+  specialize (IH s1 Hv1). destruct (read_bytes k s1) as [l s2]. exact IH.
+Qed.
+
+(* every request is at most 255 per size byte read *)
+Lemma extract_loop_go_allocs : forall f s, vinv s ->
+  sumN (c_allocs (snd (extract_loop_go f s))) <= 255 * c_ffreads (snd (extract_loop_go f s)).
+Proof.
+  induction f as [|f IH]; intros s Hv; cbn [extract_loop_go]; [cbn; lia|].
+  destruct (read_ff_t (S (length (rdata s))) u64 s 0 0) as [[[ty s1] k1]|] eqn:H1; [|cbn; lia].
+  pose proof (read_ff_t_vinv _ _ _ _ _ _ _ _ Hv H1) as Hv1.
+  destruct (read_ff_t (S (length (rdata s))) u32 s1 0 0) as [[[sz s2] k2]|] eqn:H2; [|cbn; lia].
+  destruct (read_ff_t_value _ _ _ _ _ _ _ Hv1 H2) as (Hsz & Hv2).
+  unfold read_bytes_go.
+  assert (Hgo : exists pl s3 al, (if rerr s2 then ([], s2, 0, 0)
+                 else let '(l, s') := read_bytes (N.to_nat sz) s2 in ((if rerr s' then [] else l), s', sz, sz))
+                = (pl, s3, al, al) /\ al <= sz /\ vinv s3).
+  { destruct (rerr s2).
+    - eexists _, _, _. split; [reflexivity|]. split; [lia|exact Hv2].
+    - pose proof (read_bytes_vinv (N.to_nat sz) s2 Hv2) as Hv3.
+      destruct (read_bytes (N.to_nat sz) s2) as [l s']. eexists _, _, _. split; [reflexivity|]. split; [lia|exact Hv3]. }
+  destruct Hgo as (pl & s3 & al & -> & Hal & Hv3).
+  destruct (rerr s3); [cbn [snd c_allocs c_ffreads sumN]; lia|].
+  destruct (more_rbsp_data s3) as [[[|]|] s4] eqn:Hm; try (cbn [snd c_allocs c_ffreads sumN]; lia).
+  apply more_rbsp_state in Hm. subst s4. specialize (IH s3 Hv3).
+  destruct (extract_loop_go f s3) as [r c]. cbn [snd] in *. unfold cost_add. cbn [c_allocs c_ffreads sumN]. lia.
+Qed.
+
+Lemma bytes_ok_lt256 l : bytes_ok l = true -> Forall lt256 l.
+Proof.
+  induction l as [|b t IH]; [constructor|]. rewrite bytes_ok_cons. intros H.
+  apply andb_true_iff in H. destruct H as (H1 & H2). constructor; [|apply IH; exact H2].
+  unfold byte_ok in H1. unfold lt256. lia.
+Qed.
+
+(* allocation and ReadBytes iterations of the whole run: linear in the input, also on the failing path *)
+Lemma extract_sei_data_alloc_bound data :
+  bytes_ok data = true ->
+  sumN (c_allocs (snd (extract_sei_data_go data))) <= 255 * (lenN data + 2) /\
+  c_pliters (snd (extract_sei_data_go data)) <= 255 * (lenN data + 2).
+Proof.
+  intros Hb.
+  destruct (extract_sei_data_total data) as (r & c & Hrun & _ & _ & _ & Hff & Hit & _).
+  assert (Hv : vinv (rinit data)).
+  { right. split; [apply RInv_init, bytes_ok_lt256, Hb|cbn; lia]. }
+  pose proof (extract_loop_go_allocs (S (length data)) (rinit data) Hv) as Ha.
+  unfold extract_sei_data_go in *. rewrite Hrun in *. cbn [snd] in *. rewrite Hit. split; nia.
+Qed.
